@@ -140,7 +140,14 @@ class C05(Prop):
         elif r < 0.24 and rank >= 1:
             malformed = "emptyname"
             axes[rng.randrange(rank)]["name"] = ""
+        elif r < 0.34 and rank >= 1:
+            malformed = "rank"       # the values have more / fewer dimensions than there are axes (leading sizes agree)
         shape = [len(a["labels"]) for a in axes]
+        if malformed == "rank":
+            if rng.random() < 0.6 or rank == 1:
+                shape = shape + [rng.choice([1, 2, 3])]
+            else:
+                shape = shape[:-1]
         if malformed == "size":
             d = rng.randrange(rank)
             shape[d] += 1
